@@ -35,8 +35,8 @@ Inductive case :=
 | CaseCompile (cf : config) (res : compiled)
   (* isDNSSECFailure on a response with this rcode and one EDE option (or no OPT: None) *)
 | CaseEde (rcode : N) (code : option N) (res : bool)
-  (* the miekg/dns constant dns.ExtendedErrorCode<name> *)
-| CaseEdeConst (name : list N) (code : N)
+  (* net.ParseCIDR on IPv4 / IPv6 text (no dotted-quad tail, no zone) *)
+| CaseCidr (txt : list N) (res : option ipnet)
   (* the handler in front of a scripted next handler and Queryer; wf: the A
      response's alias chain was generated well-formed starting at the qname *)
 | CaseServe (cf : config) (q : query) (down : option (msg * N)) (work : bool) (al : alookup) (wf : bool) (o : obs).
@@ -98,7 +98,7 @@ Definition check_case (c : case) : bool :=
   | CaseCompile cf res => compiled_eqb (compile cf) res
   | CaseEde rcode code res =>
       Bool.eqb (is_dnssec_failure (mk_msg false 1 rcode false (match code with Some c => Some [c] | None => None end) [] [])) res
-  | CaseEdeConst name code => opt_eqb N.eqb (ede_code name) (Some code)
+  | CaseCidr txt res => opt_eqb ipnet_eqb (if existsb (N.eqb 58) txt then parse_cidr6 txt else parse_cidr4 txt) res
   | CaseServe cf q down work al wf o =>
       result_matches (serve cur cf q down work al) o
   end.
@@ -226,6 +226,6 @@ Definition spec_case (c : case) : bool :=
       && all2 ipnet_eqb (map cp_net (c_prefixes res)) (spec_prefixes cf)
   | CaseEde rcode code res =>
       Bool.eqb res ((rcode =? 2) && match code with Some c => existsb (N.eqb c) spec_dnssec_codes | None => false end)
-  | CaseEdeConst name code => true
+  | CaseCidr txt res => true
   | CaseServe cf q down work al wf o => spec_serve cf q down work al wf o
   end.
